@@ -2,7 +2,8 @@
 //! builds the enforced profile through every public construction path and logs `speed_points()`.
 //!
 //! Case descriptor (emitted by SpeedProfile.tla or by `gen`):
-//! {"oscale":..,"vscale":..,"train":{"n":cars,"car_len":..,"car_mass":kg,"axles":per car,"vmax":..},
+//! {"oscale":..,"vscale":..,"train":{"n":cars,"car_len":..,"car_mass":kg,"axles":per car,"vmax":..,
+//!   "more":[{"n","car_len","car_mass","axles","vmax","brakes"}..],"len_ov":..,"mass_ov":..},
 //!  "links":[{"len":..,"head":bool,"params":[[ltype,ctype,val]..],"rs":[[s,e,v]..]},..]}
 //! The route is links 1..n in order (each link's prev is the one before it).
 use altrios_core::prelude::*;
@@ -55,25 +56,36 @@ fn exec(desc: &Value, tr: &mut Tracer) -> anyhow::Result<()> {
         }
     };
     let t = &desc["train"];
-    let ncars = gi(t, "n") as u32;
-    let rv = {
+    // the train's make-up: its first car type "X" and the further types of "more" (a type may be listed with 0 cars),
+    // optional explicit train length / towed mass ("len_ov" / "mass_ov", 0 = none)
+    let car = |name: &str, c: &Value, brakes: i64| {
         let mut rv = RailVehicle::default();
-        rv.car_type = "X".into();
-        rv.length = uc::M * (gf(t, "car_len") / os);
-        rv.axle_count = gi(t, "axles") as u8;
-        rv.brake_count = 1;
-        rv.mass_static_base = uc::KG * gf(t, "car_mass");
+        rv.car_type = name.into();
+        rv.length = uc::M * (gf(c, "car_len") / os);
+        rv.axle_count = gi(c, "axles") as u8;
+        rv.brake_count = brakes as u8;
+        rv.mass_static_base = uc::KG * gf(c, "car_mass");
         rv.mass_freight = uc::KG * 0.0;
         rv.mass_rot_per_axle = uc::KG * 0.0;
-        rv.speed_max = uc::MPS * (gf(t, "vmax") / vs);
+        rv.speed_max = uc::MPS * (gf(c, "vmax") / vs);
         rv
     };
+    let mut rvs = vec![car("X", t, 1)];
+    let mut counts = HashMap::from([("X".to_string(), gi(t, "n") as u32)]);
+    if let Some(more) = t.get("more").and_then(|m| m.as_array()) {
+        for (k, c) in more.iter().enumerate() {
+            let name = format!("Y{k}");
+            rvs.push(car(&name, c, gi(c, "brakes")));
+            counts.insert(name, gi(c, "n") as u32);
+        }
+    }
+    let ov = |key: &str| t.get(key).and_then(|x| x.as_f64()).filter(|x| *x > 0.0);
     let tc = TrainConfig::new(
-        vec![rv],
-        HashMap::from([("X".to_string(), ncars)]),
+        rvs,
+        counts,
         TrainType::Freight,
-        None,
-        None,
+        ov("len_ov").map(|x| uc::M * (x / os)),
+        ov("mass_ov").map(|x| uc::KG * x),
         None,
     )?;
     let tp = tc.make_train_params()?;
@@ -246,8 +258,21 @@ fn gen(seed: u64, n: usize, tier: &str) -> Vec<Value> {
             links.push(json!({"len":len,"head":r.chance(1,2),"params":params,
                 "rs": rs.iter().map(|x| json!([x.0,x.1,x.2])).collect::<Vec<_>>() }));
         }
+        // a third of the trains are mixed: one or two further car types (other length / maximum speed / brakes per car,
+        // one in four listed with 0 cars), now and then an explicit train length or towed mass
+        let mut more = vec![];
+        if r.chance(1, 3) {
+            for _ in 0..r.range(1, 2) {
+                more.push(json!({"n": if r.chance(1, 4) { 0 } else { r.range(1, 20) },
+                    "car_len": *r.pick(&[96i64, 128, 160, 240]), "car_mass": *r.pick(&[20000i64, 60000, 90000]),
+                    "axles": *r.pick(&[4i64, 6]), "vmax": *r.pick(&[96i64, 120, 160, 200, 240, 280]), "brakes": r.range(1, 2)}));
+            }
+        }
+        let len_ov = if r.chance(1, 10) { r.range(10, 600) * 8 } else { 0 };
+        let mass_ov = if r.chance(1, 10) { r.range(1, 40) * 100000 } else { 0 };
         out.push(json!({"src":"gen","seed":seed,"k":k,"oscale":8,"vscale":8,
-            "train":{"n":ncars,"car_len":car_len,"car_mass":car_mass,"axles":axles,"vmax":vmax},
+            "train":{"n":ncars,"car_len":car_len,"car_mass":car_mass,"axles":axles,"vmax":vmax,
+                     "more":more,"len_ov":len_ov,"mass_ov":mass_ov},
             "links":links}));
     }
     out
